@@ -35,12 +35,21 @@ def make_exc(name):
 
 
 def items_st():
-    return st.tuples(st.sampled_from(['str', 'bytes']), st.lists(ITEM, max_size=4), st.integers(0, 2)).map(
+    return st.tuples(st.sampled_from(['str', 'str', 'bytes', 'bytes', 'bytearray', 'memoryview']), st.lists(ITEM, max_size=4), st.integers(0, 2)).map(
         lambda t: {'type': t[0], 'items': [''] * t[2] + t[1]})
 
 
-def _enc(kind, s):
-    return s.encode('utf8') if kind == 'bytes' else s
+def _enc(kind, s, idx=0):
+    """bytes-like item types other than bytes are not among the supported return types: whatever the framework makes of them, the answer
+    must be one well-formed response whose chunks are bytes"""
+    if kind == 'str':
+        return s
+    b = s.encode('utf8')
+    if kind == 'bytearray' or (kind == 'mixed_bytes_like' and idx % 2 == 1):
+        return bytearray(b)
+    if kind == 'memoryview' or (kind == 'mixed_bytes_like' and idx % 3 == 2):
+        return memoryview(b)
+    return b
 
 
 @st.composite
@@ -80,7 +89,7 @@ class Track:
 
 class _IterBase:
     def __init__(self, tr, spec):
-        self.items = [_enc(spec['type'], s) for s in spec['items']]
+        self.items = [_enc(spec['type'], s, j) for j, s in enumerate(spec['items'])]
         self.raise_at = spec.get('raise_at')
         self.close_raises = bool(spec.get('close_raises'))
         self.closes = 0
@@ -203,9 +212,9 @@ def build(spec, tr, shared_store, reqno):
     if k == 'exc':
         return 'raise', make_exc(spec.get('exc') or 'RuntimeError')
     if k == 'list':
-        return 'return', [_enc(spec['type'], s) for s in spec['items']]
+        return 'return', [_enc(spec['type'], s, j) for j, s in enumerate(spec['items'])]
     if k == 'gen':
-        items = [_enc(spec['type'], s) for s in spec['items']]
+        items = [_enc(spec['type'], s, j) for j, s in enumerate(spec['items'])]
         ra = spec.get('raise_at')
 
         def g():
@@ -271,6 +280,8 @@ def model_status(spec, status, handlers):
     k = spec['k']
     if k == 'exc' or (k in ('gen', 'iterobj') and spec.get('raise_at') == 0):
         return 500
+    if k in ('list', 'gen', 'iterobj') and spec.get('type') not in ('str', 'bytes'):
+        return None         # bytes-like items: unsupported type, the status is not predicted
     if k in ('str', 'bytes', 'empty', 'none', 'list', 'gen', 'iterobj', 'file'):
         return status
     if k == 'resp':
